@@ -471,6 +471,7 @@ func ruleCloseOnce(c *Ctx, rule string) {
 			}
 			c.Anchor(rule, fname(fn)+"."+f.Name())
 			guarded := false
+			unguardedWhy := ""
 			for _, fct := range w.factsAt(in) {
 				if fct.Op == "==" && !fct.Truth {
 					if e, ok := fct.X.(*ssa.Extract); ok {
@@ -479,6 +480,25 @@ func ruleCloseOnce(c *Ctx, rule string) {
 								if w.sameKey(s.Chan, ch) {
 									guarded = true
 								}
+							}
+						}
+					}
+				}
+			}
+			// … or the closed-test is made by a predicate helper (c.isClosed()) that returned false
+			if !guarded {
+				for _, fct := range w.factsAt(in) {
+					if fct.Op == "true" && !fct.Truth {
+						if pc, _ := callOf(fct.X); pc != nil && w.closedTestPred(pc.Call.StaticCallee(), f) {
+							// test and close must be one step: a mutex held at both
+							hp, hc := li.mustAt(pc), li.mustAt(in)
+							for cls := range hp {
+								if hc[cls] {
+									guarded = true
+								}
+							}
+							if !guarded {
+								unguardedWhy = "the closed-test (" + fname(pc.Call.StaticCallee()) + ") and the close are not inside one critical section: two callers can both pass the test and the second close panics"
 							}
 						}
 					}
@@ -553,9 +573,39 @@ func ruleCloseOnce(c *Ctx, rule string) {
 					}
 				}
 			}
+			// inside the function handed to a sync.Once field of the same object: runs at most once
+			onceOnly := false
+			if fn.Parent() != nil {
+				for _, mcl := range w.Closures[fn] {
+					if mcl.Referrers() == nil {
+						continue
+					}
+					for _, r := range *mcl.Referrers() {
+						oc, isC := r.(*ssa.Call)
+						if !isC || stdCallee(&oc.Call) != "(*sync.Once).Do" {
+							continue
+						}
+						if ob, _, isF := fieldLoadAddr(oc.Call.Args[0]); isF {
+							if cb, _, isF2 := fieldLoad(ch); isF2 {
+								hb := cb
+								if fv, isFV := stripIface(hb).(*ssa.FreeVar); isFV {
+									if b := w.binding(fv); b != nil {
+										hb = b
+									}
+								}
+								if w.sameKey(ob, hb) || stripIface(w.resolveLoad(ob)) == stripIface(w.resolveLoad(hb)) {
+									onceOnly = true
+								}
+							}
+						}
+					}
+				}
+			}
 			switch {
 			case guarded:
 				c.OK(rule, fname(fn), "close "+f.Name(), w.instrPos(in), "closed-test dominates the close (locks held: {"+held.str()+"})")
+			case onceOnly:
+				c.OK(rule, fname(fn), "close "+f.Name(), w.instrPos(in), "closed inside the function run by a sync.Once of the same object: at most once")
 			case removed:
 				c.OK(rule, fname(fn), "close "+f.Name(), w.instrPos(in), "the holder is deleted from the table it was looked up in within the same critical section ({"+held.str()+"}): no second closer can find it")
 			case nilGuard:
@@ -567,6 +617,8 @@ func ruleCloseOnce(c *Ctx, rule string) {
 				} else {
 					c.Bad(rule, fname(fn), "close "+f.Name(), w.instrPos(in), "result channel closed without Client.mutexTrMap held on every call path: a completion between its table lookup and its WriteResult sends on a closed channel (panic)")
 				}
+			case unguardedWhy != "":
+				c.Bad(rule, fname(fn), "close "+f.Name(), w.instrPos(in), unguardedWhy)
 			default:
 				c.Bad(rule, fname(fn), "close "+f.Name(), w.instrPos(in), "close of a shared channel without a closed-test: a second close panics")
 			}
@@ -601,4 +653,61 @@ func (w *World) mutatedInPlace(f *types.Var) bool {
 		})
 	}
 	return found
+}
+
+// closedTestPred: h is a predicate "is the channel in field fld closed": it makes a
+// non-blocking receive on the field of its receiver and returns the constant true exactly on
+// the edge where the receive succeeded, false on the default edge.
+func (w *World) closedTestPred(h *ssa.Function, fld *types.Var) bool {
+	if h == nil || !w.IsMod[h] || len(h.Blocks) == 0 || h.Signature.Results().Len() != 1 || h.Signature.Results().At(0).Type().String() != "bool" {
+		return false
+	}
+	var sel *ssa.Select
+	w.eachInstr(h, func(in ssa.Instruction) {
+		if s, ok := in.(*ssa.Select); ok && !s.Blocking && len(s.States) == 1 && s.States[0].Dir == types.RecvOnly {
+			if _, f, isL := fieldLoad(s.States[0].Chan); isL && f == fld {
+				sel = s
+			}
+		}
+	})
+	if sel == nil {
+		return false
+	}
+	nTrue, nFalse := 0, 0
+	for _, r := range returnsOf(h) {
+		k, ok := r.Results[0].(*ssa.Const)
+		if !ok || k.Value == nil {
+			return false
+		}
+		taken, known := false, false
+		for _, f := range w.factsAt(r) {
+			if f.Op != "==" {
+				continue
+			}
+			for _, pair := range [][2]ssa.Value{{f.X, f.Y}, {f.Y, f.X}} {
+				ex, isE := pair[0].(*ssa.Extract)
+				if !isE || ex.Tuple != ssa.Value(sel) || ex.Index != 0 {
+					continue
+				}
+				if c0, isC := constInt(pair[1]); isC && c0 == 0 {
+					taken, known = f.Truth, true
+				}
+			}
+		}
+		if !known {
+			return false
+		}
+		if k.Value.String() == "true" {
+			if !taken {
+				return false
+			}
+			nTrue++
+		} else {
+			if taken {
+				return false
+			}
+			nFalse++
+		}
+	}
+	return nTrue > 0 && nFalse > 0
 }
